@@ -163,3 +163,13 @@ def r4(ctx):
     from .c13 import r1 as routing, r6 as no_handler
     routing(ctx)
     no_handler(ctx)
+
+
+@rule("R-C07-5", min_instances=6, title="the pong is one well-formed frame written once: length table, key discipline (also for an empty payload) and one accepted transport write per call of the low-level send (no duplicate after a would-block retry)")
+def r5(ctx):
+    from .c01 import r1 as length_table, r4 as key_discipline
+    from .c12 import r6 as one_write_per_send
+    length_table(ctx)
+    key_discipline(ctx)
+    one_write_per_send(ctx)
+
